@@ -9,13 +9,13 @@ from ..runner import run_given
 
 PROPERTY = 'C17'
 RULE = ("Objects created with dyadic scale s=k/2^j (k in +-{1,2,3,5,7,...}, int and float carriers) and dyadic bias b=m/2^i: the unscaled target u is constructed on the quarter-LSB grid (ties, boundaries, both overflow sides) "
-        "and v=u*s+b is stored by constructor / call / set_val / indexed assignment, scalar or array; every intermediate (v, v-b, (v-b)/s, s*q, s*q+b) is checked in Fractions to be an exact double, so the comparison is exact, not a tolerance. "
+        "and v=u*s+b is stored by constructor (sizes given, or taken from like= with scale/bias next to it) / call / set_val / indexed assignment, scalar or array, carried by floats, python / numpy integers of every width incl. uint64, lists, tuples or another fixed-point object holding v; every intermediate (v, v-b, (v-b)/s, s*q, s*q+b) is checked in Fractions to be an exact double, so the comparison is exact, not a tolerance. "
         "Expected: code == reference quantization of u; read-back == s*code*2^-f+b; upper/lower == s*{hi,lo}*2^-f+b; precision == s*2^-f; overflow/underflow/inaccuracy flags as for u; "
-        "size inference with scale/bias gives the minimal format of u. Non-trivial = s!=1 and b!=0 and u inexact or out of range; distinct = distinct case keys.")
+        "an element indexed out of a scaled array has no flag of its own and the same read-back; a sum delivered into a scaled out= / out_like= / numpy out= target or stored by call, and a sum with a scaled operand, follow the same map (affine-out); size inference with scale/bias gives the minimal format of u. Non-trivial = s!=1 and b!=0 and u inexact or out of range; distinct = distinct case keys.")
 ASSUMPTIONS = ['core-domain formats with n_word<=16', 'cases whose float pre-transform would not be exact are replaced by construction (low bits dropped), never filtered']
 EXHAUSTIVE = False
 REQUIRED_CLASSES = {'nontrivial': 2000, 'negative-scale': 500, 'tie': 300, 'overflow': 300, 'infer': 300, 'array': 300,
-                    'carrier:list-int': 200, 'carrier:int': 200, 'carrier:np-int': 200, 'carrier:np-narrow': 200}
+                    'carrier:list-int': 200, 'carrier:int': 200, 'carrier:np-int': 200, 'carrier:np-narrow': 200, 'carrier:np-uint64': 100, 'carrier:fxp': 200, 'affine-out': 500}
 
 SCALES = [(1, 0), (2, 0), (3, 0), (5, 0), (7, 0), (1, 1), (3, 1), (1, 2), (3, 2), (5, 3), (1, 4), (10, 0), (-1, 0), (-2, 0), (-3, 1), (-1, 2), (-5, 2), (100, 0), (25, 3)]
 
@@ -51,16 +51,22 @@ def check_affine(ctx, case):
         return
     # integer-typed carriers need whole v: move v down to the next integer and recompute the unscaled target from it
     carrier = case.get('carrier', 'float')
-    if carrier != 'float':
+    if carrier == 'fxp':
+        pass            # the value is held exactly by another (unscaled) fixed-point object
+    elif carrier != 'float':
         vi = [(u * s + b).numerator // (u * s + b).denominator for u in us]
         us2 = [(Fraction(v) - b) / s for v in vi]
         if all(exact_ok(u, s, b) and abs(v) < 2 ** 50 for u, v in zip(us2, vi)):
             us = us2
         else:
             carrier = 'float'
+    vs = [u * s + b for u in us]
+    if carrier == 'np-uint64' and any(v < 0 for v in vs):
+        carrier = 'np-int'
+    if carrier == 'fxp' and not all(M.is_double(v) and abs(v) < 2 ** 40 and (v * 2 ** 40).denominator == 1 for v in vs):
+        carrier = 'float'
     ctx.cls('carrier:' + carrier)
     ctx.ev(len(us))
-    vs = [u * s + b for u in us]
     sig = 'affine/%s/%s/%s' % (route, shape, carrier)
     sc, bi = num(s, case['scale_float']), num(b, case['bias_float'])
     if case.get('bias_np32') and isinstance(bi, float) and float(np.float32(bi)) == bi:
@@ -71,6 +77,18 @@ def check_affine(ctx, case):
         kw = dict(rounding=mode[0], overflow=mode[1], scale=sc, bias=bi)
         if carrier == 'float':
             obj = float(vs[0]) if shape == 'scalar' else np.array([float(v) for v in vs])
+        elif carrier == 'fxp':
+            obj = F(float(vs[0]) if shape == 'scalar' else np.array([float(v) for v in vs]), True, 82, 40)
+            if C.values(obj) != (vs[:1] if shape == 'scalar' else vs):
+                raise AssertionError('harness: source object does not hold v exactly')
+        elif carrier == 'np-uint64':
+            kind_u = case.get('u64', 'array')
+            if shape == 'scalar':
+                obj = np.uint64(int(vs[0]))
+            elif kind_u == 'list':
+                obj = [np.uint64(int(v)) for v in vs]
+            else:
+                obj = np.array([int(v) for v in vs], dtype=np.uint64)
         elif carrier == 'np-narrow':
             t = next((t for t in (np.int8, np.uint8, np.int16, np.uint16, np.int32, np.uint32)
                       if all(np.iinfo(t).min <= int(v) <= np.iinfo(t).max for v in vs)), np.int64)
@@ -87,6 +105,10 @@ def check_affine(ctx, case):
             obj = np.array([int(v) for v in vs], dtype=np.int64)
         if route == 'ctor':
             x = F(obj, sg, w, f, **kw)
+            sel = None
+        elif route == 'ctor-like':
+            # sizes come from an unscaled template; scale and bias are given next to like=
+            x = F(obj, like=F(None, sg, w, f), **kw)
             sel = None
         elif route == 'call':
             # (a value-less scaled object stores v=0, i.e. u=-b/s, which may itself raise flags: start from v=b, u=0)
@@ -139,6 +161,17 @@ def check_affine(ctx, case):
         if rb != wantv:
             ctx.fail('%s/readback' % sig, case, {'expected': [str(v) for v in wantv], 'got': [str(v) for v in rb], 'scale': str(s), 'bias': str(b)})
             return
+    # an element taken out of a scaled array: no flag of its own, same affine read-back
+    if shape != 'scalar' and sel is None:
+        ok, e0 = ctx.guard(case, lambda: x[0], sig_prefix='%s/element/' % sig)
+        if not ok:
+            return
+        if any(C.flags(e0)):
+            ctx.fail('affine/element/flags', case, {'flags': list(C.flags(e0)), 'scale': str(s), 'bias': str(b)})
+            return
+        if M.is_double(wantv[0]) and M.is_double(s * M.value_of(q[0][0], f)) and C.values(e0) != wantv[:1]:
+            ctx.fail('affine/element/readback', case, {'expected': str(wantv[0]), 'got': [str(v) for v in C.values(e0)]})
+            return
     # the affine wrapper survives writes of raw codes (set_val(raw=True), a bitwise operation on the object)
     if sel is None and case.get('raw_after', True):
         k2 = q[0][0]
@@ -161,6 +194,73 @@ def check_affine(ctx, case):
         if M.is_double(wv) and C.frac_of(gv) != wv:
             ctx.fail('%s/%s' % (sig.split('/')[0], name), case, {'expected': str(wv), 'got': str(gv), 'scale': str(s), 'bias': str(b)})
             return
+
+
+def check_affine_out(ctx, case):
+    """The sum of two unscaled operands delivered into a scaled target (out=, out_like=, numpy out=), and the sum with a
+    scaled second operand: the target stores the C01 quantization of (v-b)/s of the exact sum v."""
+    fmt, s, b, us = case_values(case)
+    sg, w, f = fmt
+    mode = tuple(case['mode'])
+    u = us[0]
+    if not exact_ok(u, s, b):
+        ctx.cls('skipped:inexact-pretransform')
+        return
+    v = u * s + b
+    G = 1 << 20
+    if (v * G).denominator != 1 or abs(v) >= 1 << 18:
+        ctx.cls('skipped:sum-not-splittable')
+        return
+    va = Fraction(int(case.get('split', 3)) * (v * G).numerator // 7, G)      # an arbitrary exact split v = va + vb
+    vb = v - va
+    import fxpmath
+    F = C.Fxp()
+    ctx.ev()
+    ctx.cls('affine-out')
+    route = case.get('out_route', 'out')
+    if not sg and route in ('out', 'out_like', 'numpy-out'):
+        route = 'store-call'        # a signed sum is refused by an unsigned out / out_like target (ValueError by design)
+    sig = 'affine-out/%s' % route
+    sc, bi = num(s, case['scale_float']), num(b, case['bias_float'])
+
+    def do():
+        a, c = F(float(va), True, 40, 20), F(float(vb), True, 40, 20)
+        if C.values(a) != [va] or C.values(c) != [vb]:
+            raise AssertionError('harness: operands do not hold the split exactly')
+        T = F(float(b), sg, w, f, rounding=mode[0], overflow=mode[1], scale=sc, bias=bi)
+        if route == 'out':
+            return fxpmath.add(a, c, out=T)
+        if route == 'out_like':
+            return fxpmath.add(a, c, out_like=T)
+        if route == 'numpy-out':
+            return np.add(a, c, out=T)
+        if route == 'scaled-operand':
+            # the second operand itself is a scaled object holding vb: the sum is taken on values
+            cs = F(float(vb), True, 40, 20, scale=2, bias=-1)
+            if C.values(cs) != [vb]:
+                return None
+            z = a + cs
+            return ('value', z)
+        return T(fxpmath.add(a, c))
+    ok, z = ctx.guard(case, do, sig_prefix=sig + '/')
+    if not ok or z is None:
+        return
+    if isinstance(z, tuple):
+        if C.values(z[1]) != [v]:
+            ctx.fail(sig + '/value', case, {'expected': str(v), 'got': [str(t) for t in C.values(z[1])]})
+        return
+    q = M.quant(u, sg, w, f, mode[0], mode[1])
+    try:
+        k = C.codes(z)
+    except ValueError as e:
+        ctx.fail(sig + '/non-integer-code', case, {'error': str(e)})
+        return
+    if k != q[0]:
+        ctx.fail(sig + '/code', case, {'v': str(v), 'u': str(u), 'expected': q[0], 'got': k, 'scale': str(s), 'bias': str(b)})
+        return
+    wantv = s * M.value_of(q[0], f) + b
+    if M.is_double(wantv) and M.is_double(s * M.value_of(q[0], f)) and C.values(z) != [wantv]:
+        ctx.fail(sig + '/readback', case, {'expected': str(wantv), 'got': [str(t) for t in C.values(z)]})
 
 
 def check_infer(ctx, case):
@@ -201,7 +301,7 @@ def check_infer(ctx, case):
             ctx.fail(sig + '/readback', case, {'v': str(v), 'got': str(C.values(x)[0])})
 
 
-CHECKS = {'affine': check_affine, 'infer': check_infer}
+CHECKS = {'affine': check_affine, 'infer': check_infer, 'affine-out': check_affine_out}
 
 
 def replay(ctx, case):
@@ -229,9 +329,10 @@ def st_case(draw, infer=False):
                 break
         x4s.append(x4)
     case = {'check': 'infer' if infer else 'affine', 'fmt': list(fmt), 'mode': list(draw(C.st_modes())), 'scale': list(sc), 'bias': list(bi),
-            'x4s': x4s, 'route': draw(st.sampled_from(['ctor', 'call', 'set_val', 'setitem'])), 'shape': draw(st.sampled_from(['scalar', 'array'])),
+            'x4s': x4s, 'route': draw(st.sampled_from(['ctor', 'ctor-like', 'call', 'set_val', 'setitem'])), 'shape': draw(st.sampled_from(['scalar', 'array'])),
             'scale_float': draw(st.booleans()), 'bias_float': draw(st.booleans()), 'signed': draw(st.sampled_from([None, True, False])),
-            'carrier': draw(st.sampled_from(['float', 'float', 'int', 'list-int', 'tuple-int', 'list-float', 'np-int', 'np-narrow'])),
+            'carrier': draw(st.sampled_from(['float', 'float', 'int', 'list-int', 'tuple-int', 'list-float', 'np-int', 'np-narrow', 'np-uint64', 'fxp', 'fxp'])),
+            'u64': draw(st.sampled_from(['array', 'list'])),
             'bias_np32': draw(st.booleans())}
     return case
 
@@ -271,7 +372,22 @@ def body_infer(ctx, case):
     check_infer(ctx, case)
 
 
+@st.composite
+def st_out_case(draw):
+    case = draw(st_case())
+    case.update(check='affine-out', out_route=draw(st.sampled_from(['out', 'out_like', 'numpy-out', 'store-call', 'scaled-operand'])), split=draw(st.integers(-9, 9)))
+    return case
+
+
+def body_out(ctx, case):
+    ctx.nontrivial(('affout', repr(sorted((k, repr(v)) for k, v in case.items()))))
+    ctx.sample(case, True)
+    check_affine_out(ctx, case)
+
+
 def task_hyp(ctx, which, n):
+    if which == 'affine-out':
+        return run_given(ctx, st_out_case(), body_out, n, ctx.task_seed)
     if which == 'affine':
         run_given(ctx, st_case(), body, n, ctx.task_seed)
     else:
@@ -282,4 +398,5 @@ def tasks(tier, scale=1.0):
     nh = int((2500 if tier == 'quick' else 40000) * scale)
     out = [('hyp-affine-%d' % i, 'task_hyp', {'which': 'affine', 'n': nh}) for i in range(13)]
     out += [('hyp-infer-%d' % i, 'task_hyp', {'which': 'infer', 'n': nh // 2}) for i in range(3)]
+    out += [('hyp-affine-out-%d' % i, 'task_hyp', {'which': 'affine-out', 'n': nh // 2}) for i in range(2)]
     return out
